@@ -36,6 +36,7 @@ def model_check(ctx):
     ctx.mc_expect("MC_Assignment", "DEV_Assignment_1.cfg", "InvInverseStatic")
     ctx.mc_expect("MC_Assignment", "DEV_Assignment_2.cfg", ("InvInverseStatic", "InvInverseDynamic"))
     ctx.mc_expect("MC_Assignment", "DEV_Assignment_3.cfg", "InvRemoveTotal")
+    ctx.mc_expect("MC_Assignment", "DEV_Assignment_4.cfg", ("InvInverseStatic", "InvInverseDynamic"))
 
 
 def cases(ctx):
@@ -94,8 +95,10 @@ def _random_case(seed, big=0):
             o = r.choice([o["id"] for o in obs if o["id"] not in present])
             ops.append(["add", o])
             present.add(o)
-        elif k < 0.65:
+        elif k < 0.58:
             ops.append(["assign", 0])
+        elif k < 0.65:
+            ops.append(["assign_center", 0])
         elif k < 0.80 and present:
             o = r.choice(sorted(present))
             ops.append(["remove", o])
@@ -237,6 +240,8 @@ def execute(case):
                     [G.lanelet(i, float(x0), float(y0), float(x1 - x0), float(y1 - y0)) for (i, x0, y0, x1, y1) in world["lan"]]))
             elif op == "assign":
                 sc.assign_obstacles_to_lanelets()
+            elif op == "assign_center":
+                sc.assign_obstacles_to_lanelets(use_center_only=True)
             elif op == "remove":
                 o = sc.obstacle_by_id(arg)
                 if o is None:
@@ -269,13 +274,16 @@ def execute(case):
 
 
 def corrupt(trace, rng):
-    """Remove one obstacle from a registry (or add a phantom entry): the inverse relation must be rejected."""
-    for e in rng.sample(trace["ev"], len(trace["ev"])):
+    """Remove one obstacle from a registry right after a full assignment (every obstacle in the scenario is then in
+    step with the registries): the inverse relation must be rejected."""
+    full = [e for e in trace["ev"] if e["op"] in ("assign", "open_xml", "open_pb") and e["exc"] == "None"]
+    for e in rng.sample(full, len(full)):
+        present = {o["id"] for o in e["obs"]}
         for r in e["reg"]:
-            if r["st"]:
+            if r["st"] and r["st"][0] in present:
                 r["st"] = r["st"][1:]
                 return trace
-            if r["dy"] and r["dy"][0][1]:
+            if r["dy"] and r["dy"][0][1] and r["dy"][0][1][0] in present:
                 r["dy"][0][1] = r["dy"][0][1][1:]
                 return trace
     return None
